@@ -81,6 +81,10 @@ func (r *c15run) checkExtract(wire []byte, wantOK bool, st, rt uint32) {
 func (r *c15run) deliverHostile(wire []byte, st, rt uint32, what string) {
 	v := r.m.A
 	before := v.C.GetTheirInstanceTag()
+	if r.bound != 0 && before != r.bound {
+		r.o.Fail("C15/binding-lost", "the conversation was bound to peer instance %#x by a completed key exchange and now reports %#x (before %s arrived)", r.bound, before, what)
+		return
+	}
 	own := uint32(0)
 	if r.ownKnown {
 		own = v.C.GetOurInstanceTag()
@@ -200,6 +204,9 @@ func runC15(sc *C15Script) *sim.Outcome {
 			if got := m.A.C.GetTheirInstanceTag(); got != bound {
 				return o.Fail("C15/rebound", "opening a new key exchange changed the bound peer instance from %#x to %#x", bound, got)
 			}
+			// (answering the query made the victim choose its own instance tag if it had none)
+			r.ownKnown = true
+			own = m.A.C.GetOurInstanceTag()
 			o.Class("renegotiation-opened")
 		case "handshake":
 			if established {
@@ -231,8 +238,38 @@ func runC15(sc *C15Script) *sim.Outcome {
 					r.checkExtract(w.Wire, true, w.Hdr.Sender, w.Hdr.Recv)
 				}
 			}
+		case "peerend":
+			// the genuine peer ends the session: the conversation is finished, but it still belongs to that peer instance
+			if !established || !m.A.C.IsEncrypted() {
+				continue
+			}
+			m.Settle(nil, nil)
+			m.fromR(m.R.End())
+			m.Settle(nil, nil)
+			if st.M%2 == 1 {
+				out, _ := m.A.C.End()
+				_ = out
+			}
+			o.Class("peer-ended-session")
+		case "rehandshake":
+			// the same peer instance comes back
+			if !established || m.A.C.IsEncrypted() {
+				continue
+			}
+			m.R.Encrypted, m.R.Finished = false, false
+			// (a D-H Commit the victim may have in flight from a renegotiation is answered, not dropped: dropping it
+			// would manufacture the crossing-commits pattern of the open C07 finding)
+			m.Settle(nil, nil)
+			sim.Age(m.A.C, 3*60e9)
+			if !(m.A.C.IsEncrypted() && m.R.Encrypted) && !m.Establish(st.M&1) {
+				return o.Fail("C15/handshake-blocked", "after the peer had ended the session (and hostile traffic since), the same peer instance could not open a new one (bound %#x, peer %#x)", m.A.C.GetTheirInstanceTag(), m.R.OurTag)
+			}
+			if got := m.A.C.GetTheirInstanceTag(); got != m.R.OurTag {
+				return o.Fail("C15/wrong-peer-bound", "after the new handshake the conversation is bound to %#x, the peer's tag is %#x", got, m.R.OurTag)
+			}
+			o.Class("session-reopened")
 		case "text":
-			if !established {
+			if !established || !m.A.C.IsEncrypted() || !m.R.Encrypted {
 				continue
 			}
 			m.Settle(nil, nil) // completes a renegotiation that may be in flight
@@ -245,7 +282,7 @@ func runC15(sc *C15Script) *sim.Outcome {
 				return o.Fail("C15/genuine-disturbed", "a genuine message of the bound peer was not delivered after hostile traffic (err=%v)", c.Err)
 			}
 		case "vsend":
-			if !established {
+			if !established || !m.A.C.IsEncrypted() || !m.R.Encrypted {
 				continue
 			}
 			m.Settle(nil, nil)
@@ -260,7 +297,7 @@ func runC15(sc *C15Script) *sim.Outcome {
 			}
 		case "fake":
 			// a data message with a valid MAC (made by the authenticated peer) but other tags
-			if !established {
+			if !established || !m.A.C.IsEncrypted() || !m.R.Encrypted {
 				continue
 			}
 			stag, rtag := r.tagOf(st.ST, si), r.tagOf(st.RT, si+3)
@@ -324,7 +361,7 @@ func init() { reg("C15tags", runC15); reg("C15matrix", runC15) }
 
 func TestProp_C15_Tags(t *testing.T) {
 	defer sim.MarkCompleted("C15tags", false)
-	kinds := []string{"hostile", "hostile", "hostile", "handshake", "handshake", "text", "text", "vsend", "fake", "fake", "fake", "frag", "frag", "extract", "requery", "requery"}
+	kinds := []string{"hostile", "hostile", "hostile", "handshake", "handshake", "text", "text", "vsend", "fake", "fake", "fake", "frag", "frag", "extract", "requery", "requery", "peerend", "peerend", "rehandshake"}
 	rapid.Check(t, func(rt *rapid.T) {
 		sc := &C15Script{Cfg: genSessCfg(rt), Lazy: rapid.IntRange(0, 2).Draw(rt, "lazy") == 0}
 		sc.Cfg.FragA, sc.Cfg.FragB = 0, 0
@@ -354,6 +391,9 @@ func TestProp_C15_Matrix(t *testing.T) {
 				{{K: "handshake", M: 1}, {K: "frag", ST: st, RT: rt}, {K: "text"}},
 				{{K: "handshake"}, {K: "hostile", ST: st, RT: rt, M: 2}, {K: "text"}},
 				{{K: "handshake"}, {K: "requery"}, {K: "hostile", ST: st, RT: rt}, {K: "fake", ST: st, RT: rt}},
+				// the peer has ended the session (the user has closed it, or not yet): messages of other instances are still not for us
+				{{K: "handshake"}, {K: "peerend"}, {K: "hostile", ST: st, RT: rt}, {K: "frag", ST: st, RT: rt}, {K: "rehandshake"}, {K: "text"}},
+				{{K: "handshake", M: 1}, {K: "peerend", M: 1}, {K: "hostile", ST: st, RT: rt}, {K: "rehandshake", M: 1}, {K: "text"}, {K: "vsend"}},
 			} {
 				for _, lazy := range []bool{false, true} {
 					if lazy && shape[0].K == "handshake" {
